@@ -107,9 +107,10 @@ def wtoken (d : DS) (tok : String) : Except String DS :=
       match nat? g, nat? q with
       | some gi, some qi =>
         -- channel FIFO per goroutine: its lines leave the buffer in the order it created them
-        if (d.last.lookup gi).getD 0 ≥ qi then .error "fifo"
+        -- (sequence number 0: a line logged before Start, replayed by a helper goroutine — unordered)
+        if qi != 0 && (d.last.lookup gi).getD 0 ≥ qi then .error "fifo"
         else
-          let d := { d with last := setLast d.last gi qi }
+          let d := if qi != 0 then { d with last := setLast d.last gi qi } else d
           if k == "deq" then applyEv d (.deq ln)
           else if k == "fdeq" then applyEv d (.fdeq ln)
           else .error "bad-token"
